@@ -618,9 +618,17 @@ func (b *BaseStore) Sync(ctx context.Context, heads []ipfslog.Entry) error {
 		return nil
 	}
 
+	// only heads that passed every check are handed to the replicator
+	verified := make([]ipfslog.Entry, 0, len(heads))
+
 	for _, h := range heads {
-		if h == nil {
+		if h == nil || !h.Defined() {
 			b.Logger().Debug("warning: Given input entry was 'null'.")
+			continue
+		}
+
+		if !headIsComplete(h) {
+			b.Logger().Debug("warning: Given input entry is incomplete (no identity or clock) and was discarded")
 			continue
 		}
 
@@ -656,11 +664,30 @@ func (b *BaseStore) Sync(ctx context.Context, heads []ipfslog.Entry) error {
 		}
 
 		span.AddEvent("store-sync-head-verified")
+		verified = append(verified, h)
 	}
 
-	go b.Replicator().Load(ctx, heads)
+	if len(verified) == 0 {
+		return nil
+	}
+
+	go b.Replicator().Load(ctx, verified)
 
 	return nil
+}
+
+// headIsComplete reports whether a head received from a peer carries the parts
+// that are dereferenced while it is checked and written to the dag: an identity
+// with its signatures and a clock.
+func headIsComplete(h ipfslog.Entry) bool {
+	identity := h.GetIdentity()
+	if identity == nil || identity.Signatures == nil {
+		return false
+	}
+
+	clock := h.GetClock()
+
+	return clock != nil && clock.Defined()
 }
 
 func (b *BaseStore) LoadMoreFrom(ctx context.Context, amount uint, entries []ipfslog.Entry) { //nolint:all
